@@ -227,6 +227,26 @@ def run_c10(ctx, replay=None):
             what = "real secret store breaks C10 in block %s (crash at mutation %s, retry=%s) at line %s: observed %s" % (
                 rj["id"], rs.get("crashAt"), rs.get("retry"), rj["at"], json.dumps(line, sort_keys=True)[:600])
             ctx.violation(what, {"script": one_sc, "observed": rj["events"], "rejected_line": line, "step": rj["at"]})
+    # informational, outside the four clauses of the statement: a registration that returned after the restart
+    # (redelivery of the interrupted RegisterChainKey) should give its whole window
+    lost = []
+    for bid, evs in blocks:
+        w = byid[_sid(bid)]["cfg"]["W"]
+        cr = next((e for e in evs if e.get("ev") == "register" and e.get("crashed")), None)
+        if not cr:
+            continue
+        i = evs.index(cr)
+        if any(e.get("ev") == "register" and e["s"] == cr["s"] and e["d"] == cr["d"] and e.get("muts") for e in evs[:i]):
+            continue
+        redo = next((e for e in evs[i + 1:] if e.get("ev") == "register" and (e["s"], e["d"], e["x"]) == (cr["s"], cr["d"], cr["x"]) and e.get("ok") and not e.get("crashed")), None)
+        fin = next((e for e in evs if e.get("ev") == "probes" and e.get("phase") == "final" and e["s"] == cr["s"]), None)
+        if redo and fin:
+            miss = [p for p in fin["all"] if p[0] == cr["d"] and cr["x"] < p[1] <= cr["x"] + w and p not in fin["open"]]
+            if miss:
+                lost.append({"block": bid, "register": [cr["s"], cr["d"], cr["x"]], "not_openable": miss})
+    if lost:
+        ctx.extra.setdefault("outside_property", []).append({"note": "a RegisterChainKey call that returned ok after the restart did not make its window openable (keys lost for good); not one of the C10 clauses, reported only", "count": len(lost), "examples": lost[:3]})
+        vf.log("outside the property: %d blocks where a redelivered registration lost its window" % len(lost))
     ctx.evaluations += nblocks
     ctx.distinct_nontrivial += torn
     for bid, evs in blocks:
@@ -242,3 +262,135 @@ def run_c10(ctx, replay=None):
                       rule="blocks = (workload, crash index, retry/drop variant): every datastore mutation of every TLC-generated workload taken as the stop point; non-trivial = the interrupted call had applied at least one of its mutations (torn call)",
                       exhaustive=False,
                       technique="TLA+ spec RatchetStore.tla (one step per datastore mutation, Crash/Restart) model-checked by TLC; TLC-generated workloads run on real secret stores over a crashing datastore once per crash index; recordings checked by TLC against MonRatchetStore.tla (verdict) and TraceRatchetStore.tla (mutation order and state conformance)")
+
+
+# ------------------------------------------------------------------------------------------ C09
+def _c09_model(ctx):
+    quick = ctx.tier == "quick"
+    cfg = "MC_RatchetStore_c09.cfg"
+    jobs = [lambda: ctx.tlc_expect_ok("RatchetStore", cfg, name="mc_2x2_lock", workers=2, timeout=1500),
+            lambda: ctx.tlc_expect_ok("RatchetStore", cfg, name="mc_3x1_lock", workers=2, timeout=1500,
+                                      consts={"Thr": '{"t1","t2","t3"}', "MsgPerThr": "1", "MaxSent": "3"}),
+            # the strict comparison in updateCurrentKey is equivalent under the lock: no alarm expected
+            lambda: ctx.tlc_expect_ok("RatchetStore", cfg, name="mc_2x2_lock_gt", workers=2, timeout=1500, consts={"MonoGE": "FALSE", "MaxOps": "0"}),
+            lambda: _expect_violation(ctx, "mc_2x1_nolock", {"UseLock": "FALSE", "MsgPerThr": "1", "MaxSent": "2", "MaxOps": "0"},
+                                      ("NoReuse", "C09_GapFree"), cfg=cfg)]
+    if not quick:
+        jobs += [lambda: ctx.tlc_expect_ok("RatchetStore", cfg, name="mc_3x2_lock", workers=4, timeout=2400,
+                                           consts={"Thr": '{"t1","t2","t3"}', "MsgPerThr": "2", "MaxSent": "6", "MaxOps": "0"}),
+                 lambda: _expect_violation(ctx, "mc_2x2_nolock", {"UseLock": "FALSE", "MaxOps": "0"}, ("NoReuse", "C09_GapFree"), cfg=cfg)]
+    _par(jobs, 2)
+
+
+def _contended(evs):
+    """number of SealEnvelope calls whose [begin, return] interval overlaps another thread's call (measured)"""
+    active, marked, calls = {}, set(), 0
+    for i, e in enumerate(evs):
+        if e.get("ev") == "tbegin":
+            calls += 1
+            cid = (e["t"], i)
+            if active:
+                marked.add(cid)
+                marked.update(active.values())
+            active[e["t"]] = cid
+        elif e.get("ev") == "tret":
+            active.pop(e["t"], None)
+    return calls, len(marked)
+
+
+def run_c09(ctx, replay=None):
+    quick = ctx.tier == "quick"
+    ov = ctx.overlay({PKG: FILES + ["vf_race_verif_test.go"]})
+    if replay:
+        scripts = [json.load(open(replay))["script"]]
+    else:
+        _c09_model(ctx)
+        scripts = []
+        thr, msgs = (8, 40) if quick else (16, 200)
+        plans = [(2, 1, True), (3, 2, False)] if quick else [(2, 1, True), (3, 2, False), (100, 100, True)]
+        for (w, n, b) in plans:
+            for g in GTYPES:
+                scripts.append({"id": len(scripts), "cfg": {"W": w, "N": n, "batching": b, "gtype": g, "mode": "par",
+                                                            "threads": thr, "msgs": msgs}, "steps": []})
+        scripts += _c09_schedules(ctx, len(scripts))
+    events, out = vf.run_driver(ctx, PKG, "^TestVerifRace$", ov, scripts, "race", timeout=2400)
+    byid = {s["id"]: s for s in scripts}
+    blocks = _split_keep_reset(events)
+    if {_sid(b) for b, _ in blocks} != set(byid):
+        raise vf.Infra("driver did not record every run")
+    groups = {}
+    for bid, evs in blocks:
+        c = byid[_sid(bid)]["cfg"]
+        groups.setdefault((c["W"], c["N"], bool(c["batching"])), []).extend(evs)
+
+    def one(key, evs):
+        (w, n, b) = key
+        name = "c09_W%d_N%d_%s" % (w, n, "batch" if b else "nobatch")
+        return _validate_blocks2(ctx, evs, name, {"W": str(w), "N": str(n), "Batching": _tla_bool(b)})[1]
+    for rejects in _par([(lambda k=k, e=e: one(k, e)) for k, e in sorted(groups.items())], 3):
+        for rj in rejects:
+            sc = byid[_sid(rj["id"])]
+            line = rj["info"].get("line", {})
+            what = "real secret store breaks C09 in run %s (%s, %s) at line %s: observed %s" % (
+                rj["id"], sc["cfg"]["mode"], sc["cfg"]["gtype"], rj["at"], json.dumps(line, sort_keys=True)[:600])
+            lo = max(0, rj["at"] - 40)
+            ctx.violation(what, {"script": sc, "observed_around": rj["events"][lo:rj["at"] + 3], "rejected_line": line, "step": rj["at"]})
+    calls = cont = 0
+    degenerate = sched_runs = 0
+    for bid, evs in blocks:
+        c, m = _contended(evs)
+        calls += c
+        cont += m
+        if byid[_sid(bid)]["cfg"]["mode"] == "sched":
+            sched_runs += 1
+            degenerate += 1 if evs[0].get("blocked", 0) > 0 else 0
+    ctx.evaluations += calls
+    ctx.distinct_nontrivial += cont
+    par = [(b, e) for b, e in blocks if byid[_sid(b)]["cfg"]["mode"] == "par"]
+    if par:
+        bid, evs = par[0]
+        i0 = next(i for i, e in enumerate(evs) if e.get("ev") == "tbegin")
+        ctx.add_samples([{"run": byid[_sid(bid)]["cfg"], "first_recorded_operations": evs[i0:i0 + 16]}], limit=2)
+    ctx.extra["bounds"] = {"runs": len(scripts), "seal_calls": calls, "calls_overlapping_another": cont,
+                           "controlled_schedules": sched_runs, "schedules_with_a_thread_blocked_on_the_mutex": degenerate}
+    ctx.assumptions += ["real-parallel executions come from the Go scheduler (plus seeded delays in the datastore wrapper), not from TLC; TLC validates the recordings",
+                        "controlled schedules are exhaustive only at the gates (chain-key reads, datastore mutations, call begin); a thread waiting for the mutex is detected from its goroutine wait state",
+                        "in-memory map behind the recording datastore; TLC 1.8.0 and the Go toolchain trusted"]
+    return ctx.finish(level="model_checking",
+                      rule="evaluations = SealEnvelope calls recorded (parallel runs + controlled schedules); non-trivial = calls whose begin..return interval overlaps another thread's call in the recorded order",
+                      exhaustive=False,
+                      technique="TLA+ spec RatchetStore.tla (SealEnvelope split at every chain-key read/write, mutex explicit) model-checked by TLC with and without the mutex; real-parallel runs with seeded delays and TLC-generated schedules imposed through datastore gates; recordings checked by TLC against MonRatchetStore.tla (verdict) and TraceRatchetStore.tla (thread-step conformance)")
+
+
+def _c09_schedules(ctx, start_id):
+    """controlled interleavings: schedules of the lock-free model variant, the duplicating ones first"""
+    quick = ctx.tier == "quick"
+    plans = [('{"t0","t1"}', 2, 1, None, 160)] if quick else \
+            [('{"t0","t1"}', 2, 1, None, 1500), ('{"t0","t1"}', 2, 2, 3000, 1200), ('{"t0","t1","t2"}', 3, 1, 3000, 1200)]
+    scripts = []
+    for (thr, nthr, msgs, simnum, limit) in plans:
+        kw = dict(simulate="num=%d" % simnum, depth=nthr * msgs * 7 + 2) if simnum else {}
+        r = ctx.tlc("GenSealSched", "Gen_SealSched.cfg", name="sched_%dx%d" % (nthr, msgs), workers=1 if simnum else 2,
+                    consts={"Thr": thr, "MsgPerThr": str(msgs), "MaxSent": str(nthr * msgs)}, timeout=1500, heap="6g", **kw)
+        seen, dup, nodup = set(), [], []
+        for rec in r.printed.get("SCHED", []):
+            steps = [st for st in rec["steps"] if st["act"] != "ret"]
+            if len(steps) != nthr * msgs * 6:
+                continue
+            k = json.dumps(steps)
+            if k in seen:
+                continue
+            seen.add(k)
+            (dup if rec["dup"] else nodup).append(steps)
+        dup.sort(key=json.dumps)
+        nodup.sort(key=json.dumps)
+        ctx.rng.shuffle(dup)
+        ctx.rng.shuffle(nodup)
+        chosen = dup[:limit - min(len(nodup), limit // 8)] + nodup[:limit // 8]
+        ctx.extra.setdefault("schedules", []).append({"threads": nthr, "msgs": msgs, "distinct_schedules": len(seen),
+                                                      "duplicating_in_lock_free_model": len(dup), "replayed": len(chosen)})
+        for steps in chosen:
+            sid = start_id + len(scripts)
+            scripts.append({"id": sid, "cfg": {"W": 2, "N": 1, "batching": sid % 2 == 0, "gtype": GTYPES[sid % 3], "mode": "sched",
+                                               "threads": nthr, "msgs": msgs}, "steps": steps})
+    return scripts
